@@ -4,6 +4,7 @@
  "props": ["C08", "C20"],
  "level": "U/iter",
  "tier": "quick",
+ "tier_after_hooks": "quick",
  "harness": "h_ss2_reserve",
  "includes": ["resize"],
  "loop_contracts": true,
